@@ -121,6 +121,8 @@ type Gen struct {
 	heapClk     map[*Term]*Term // heap component version -> clock when it was written
 	freshRefs   map[*Term]bool  // objects allocated by this function that have not escaped yet
 	iptrs       []*iptrInst     // first-class pointers to scalar fields seen so far
+	immCap      map[*ssa.FreeVar]bool // captured variables that are never reassigned
+	cellTy      map[*Term]types.Type // heap cells of local variables (captured or address-taken), by reference
 	quietEpoch  bool            // the current write goes to a non-escaped fresh object
 	mergeCases  map[*Term][]*mergeCase // reach constant of a join block -> incoming cases
 	callOrd     map[string]int
@@ -195,6 +197,7 @@ func (g *Gen) reset() {
 	}
 	g.freshRefs = map[*Term]bool{}
 	g.iptrs = nil
+	g.cellTy = map[*Term]types.Type{}
 	g.mergeCases = map[*Term][]*mergeCase{}
 	g.usedCallAssumes = map[*Clause]bool{}
 	g.preCallOrd = map[string]int{}
@@ -431,6 +434,12 @@ func (g *Gen) havocAllExcept(st *State, why string, keep func(string) bool) {
 		}
 	}
 	names := append([]string{}, g.uniOrder...)
+	before := map[string]*Term{}
+	if len(g.cellTy) > 0 {
+		for k, v := range st.Heap {
+			before[k] = v
+		}
+	}
 	for _, n := range names {
 		if strings.HasPrefix(n, "G:") && g.immutableGlobalComp(n) {
 			continue
@@ -439,6 +448,21 @@ func (g *Gen) havocAllExcept(st *State, why string, keep func(string) bool) {
 			continue
 		}
 		st.Heap[n] = g.fresh("hv:"+n, g.universe[n])
+	}
+	// the cell of a local variable that this function allocated and has not let escape
+	// (captured only by a closure it defers itself) is out of every callee's reach
+	for r, ty := range g.cellTy {
+		if !g.freshRefs[r] {
+			continue
+		}
+		for _, lf := range leavesOf(ty) {
+			n := g.compName(&Addr{Root: RObj, RootT: ty}, lf)
+			oldH, ok1 := before[n]
+			newH, ok2 := st.Heap[n]
+			if ok1 && ok2 && oldH != newH {
+				g.assume(Eq(Select(newH, r), Select(oldH, r)))
+			}
+		}
 	}
 	st.Epoch = g.fresh("epoch", SInt)
 	g.bumpClock(st)
